@@ -228,7 +228,7 @@ Theorem C06_unified_rotation_any_level_ctrl_safe_b :
     walk_pre_uni h lvl top H v entries headers names_cb exits todo isback latch sexit bv fresh = true ->
     exists nl g0 g1 tbl g1',
       find h lvl = Some nl /\ collect h (children_h nl) = Some g0 /\
-      insert_cb g0 H v entries headers names_cb C_HEAD = Ok g1 /\
+      insert_cb g0 H v entries headers names_cb C_HEAD = Ok g1 /\ head_tbl g1 H v headers = Some tbl /\
       loop_rotate g1 H headers exits todo true tbl isback latch sexit v bv fresh = Ok g1' /\
       forall n e e' ds,
         (exists b p, find h n = Some b /\ n_kind b = KOrig p) ->
